@@ -674,6 +674,37 @@ impl Check for C15Check {
             let t = no_restore(mixed_history(&mut rng, c, l, tn, true));
             let via_esc = rng.bool();
             let mut t = t;
+            // a rendition built up in two steps under a random reverse-video state right before
+            // the reset, and the second step again right after it
+            if rng.below(8) == 0 {
+                if rng.bool() {
+                    h.push(Op::Api(Call::SetMode(vec![5], true)));
+                }
+                let r1 = match rng.below(3) {
+                    0 => vec![27],
+                    1 => vec![7],
+                    _ => gen::rendition(&mut rng),
+                };
+                let r2 = match rng.below(4) {
+                    0 => vec![0, 1],
+                    1 => vec![0, 31, 4],
+                    2 => vec![0],
+                    _ => gen::rendition(&mut rng),
+                };
+                h.push(Op::Api(Call::Sgr(r1)));
+                h.push(Op::Api(Call::Sgr(r2.clone())));
+                t.insert(0, Op::Api(Call::Draw("x".into())));
+                t.insert(0, Op::Api(Call::Sgr(r2)));
+            }
+            // the last few operations of the history again, verbatim, right after the reset: the
+            // identical request must now act on the fresh state (nothing remembered about it)
+            if rng.below(3) == 0 && !h.is_empty() {
+                let k = 1 + rng.usize(3.min(h.len()));
+                let tail: Vec<Op> = no_restore(h[h.len() - k..].to_vec());
+                for (i, o) in tail.into_iter().enumerate() {
+                    t.insert(i, o);
+                }
+            }
             if rng.below(3) == 0 {
                 // leave / enter 132-column mode right after the reset: exposes a stale remembered width
                 let at = rng.usize(t.len().min(3) + 1);
